@@ -3,15 +3,15 @@ set -e
 . $MC/par.sh
 H=$VERIF/harness/c14
 TT=0; [ "$TIER" = thorough ] && TT=1
-CF="-DTIER_THOROUGH=$TT -std=c++17 -O2 -g -fsanitize=address -fno-omit-frame-pointer -I$REPO -I$MC -I$H -I$VERIF/harness/c02"
+CF="-DTIER_THOROUGH=$TT -std=c++20 -O2 -g -fsanitize=address -fno-omit-frame-pointer -I$REPO -I$MC -I$H -I$VERIF/harness/c02"
 par g++ -c $CF $H/c14_main.cpp -o $BUILD/main.o
 par g++ -c $CF $H/c14_twin.cpp -o $BUILD/twin.o
 # second build of the same TUs: the other compiler (argument evaluation order, folding) at -O2 and with
 # -DNDEBUG (an assert that carries a side effect vanishes); it re-runs a representative selection
-CFC="-DTIER_THOROUGH=$TT -DNDEBUG -std=c++17 -O2 -g1 -fsanitize=address -fno-omit-frame-pointer -I$REPO -I$MC -I$H -I$VERIF/harness/c02"
+CFC="-DTIER_THOROUGH=$TT -DNDEBUG -std=c++20 -O2 -g1 -fsanitize=address -fno-omit-frame-pointer -I$REPO -I$MC -I$H -I$VERIF/harness/c02"
 par clang++ -c $CFC $H/c14_main.cpp -o $BUILD/main_clang.o
 par clang++ -c $CFC $H/c14_twin.cpp -o $BUILD/twin_clang.o
-par g++ -std=c++17 -O2 -c -I$MC $MC/mc.cpp -o $BUILD/mc.o
+par g++ -std=c++20 -O2 -c -I$MC $MC/mc.cpp -o $BUILD/mc.o
 parwait
 par clang++ -fsanitize=address $BUILD/main_clang.o $BUILD/mc.o -o $BUILD/c14_main_clang
 par clang++ -fsanitize=address $BUILD/twin_clang.o $BUILD/mc.o -o $BUILD/c14_twin_clang
